@@ -11,6 +11,7 @@ pub open spec fn is_query(t: UriElement) -> bool { t is Query }
 //@ fn canonical.rs u8_to_upper_hex
 //@ params b
 //@ props C08 C09 C10
+//@ consumers C01 C02
 //@ ret r
 //@ spec
     ensures r@ == seq![upper_hex((b / 16) as int), upper_hex((b % 16) as int)], //# C09 C10 C01 name=uppercase_hex_pair
@@ -21,6 +22,7 @@ pub open spec fn is_query(t: UriElement) -> bool { t is Query }
 //@ fn canonical.rs is_rfc3986_unreserved
 //@ params c
 //@ props C08 C09 C10
+//@ consumers C01 C02
 //@ ret r
 //@ spec
     ensures r == unreserved(c), //# C09 C10 C01 name=unreserved_set
@@ -35,6 +37,7 @@ pub open spec fn d6_class(s: Seq<u8>, t: UriElement) -> bool { !is_query(t) && !
 //@ params uri_el uri_el_type
 //@ hideutf8
 //@ props C08 C09 C10 C02
+//@ consumers C01 C02 C13
 //@ ret res
 //@ spec
     ensures
@@ -82,6 +85,7 @@ pub open spec fn d6_class(s: Seq<u8>, t: UriElement) -> bool { !is_query(t) && !
 //@ fn canonical.rs normalize_uri_path_component
 //@ params path
 //@ props C08 C09
+//@ consumers C01 C02 C13
 //@ ret res
 //@ spec
     ensures
@@ -96,6 +100,7 @@ pub open spec fn d6_class(s: Seq<u8>, t: UriElement) -> bool { !is_query(t) && !
 //@ fn canonical.rs normalize_query_string_element
 //@ params element
 //@ props C08 C10
+//@ consumers C01 C02 C12 C13
 //@ ret res
 //@ spec
     ensures
@@ -110,6 +115,7 @@ pub open spec fn d6_class(s: Seq<u8>, t: UriElement) -> bool { !is_query(t) && !
 //@ fn canonical.rs normalize_header_value
 //@ params value
 //@ props C08 C11 C02
+//@ consumers C01 C02
 //@ ret res
 //@ spec
     ensures
@@ -134,6 +140,7 @@ pub open spec fn d6_class(s: Seq<u8>, t: UriElement) -> bool { !is_query(t) && !
 //@ fn canonical.rs latin1_to_string
 //@ params bytes
 //@ props C08 C19 C05
+//@ consumers C01 C02 C03 C04 C16
 //@ ret r
 //@ spec
     ensures r@ == latin1(bytes@), //# C19 C05 C16 name=latin1
@@ -148,6 +155,7 @@ pub open spec fn d6_class(s: Seq<u8>, t: UriElement) -> bool { !is_query(t) && !
 //@ params s
 //@ hideutf8
 //@ props C08 C02 C19
+//@ consumers C01 C03 C04 C16
 //@ ret r
 //@ spec
     requires well_escaped(s.spec_bytes()), //# C08 name=documented_panic_on_malformed_escape_is_excluded
